@@ -559,6 +559,12 @@ func genFetchCase(t *rapid.T) fetchCase {
 				kept = append(kept, recs[j])
 			}
 			kept = append(kept, recs[len(recs)-1])
+			if len(kept) >= 2 && rapid.Bool().Draw(t, "firstCleanedToo") {
+				// the first record went as well: the others keep their distance to the original first offset
+				l.Batches[i].SparseShift = kept[1].Offset - kept[0].Offset
+				kept = kept[1:]
+				l.Labels = append(l.Labels, "v1_wrapper_first_record_compacted")
+			}
 			l.Batches[i].Records = kept
 			l.Batches[i].SparseInner = true
 			l.Labels = append(l.Labels, "v1_wrapper_compacted")
